@@ -36,6 +36,7 @@ var baselineJSON []byte
 type Baseline struct {
 	Funcs  map[string]string            `json:"funcs"`  // "Recv.name" or "name" -> signature
 	Fields map[string]map[string]string `json:"fields"` // struct -> field -> type
+	Prints map[string][]string          `json:"prints"` // function key -> names it mentions (callees, selected fields)
 }
 
 // LoadBaseline decodes the embedded baseline.
@@ -49,7 +50,7 @@ func LoadBaseline() (*Baseline, error) {
 
 // DumpBaseline renders the baseline of a loaded package.
 func DumpBaseline(pk *packages.Package) ([]byte, error) {
-	b := Baseline{Funcs: map[string]string{}, Fields: map[string]map[string]string{}}
+	b := Baseline{Funcs: map[string]string{}, Fields: map[string]map[string]string{}, Prints: map[string][]string{}}
 	q := types.RelativeTo(pk.Types)
 	for _, f := range pk.Syntax {
 		if skipFile(pk, f) {
@@ -63,6 +64,9 @@ func DumpBaseline(pk *packages.Package) ([]byte, error) {
 					continue
 				}
 				b.Funcs[funcKey(x)] = sigString(obj, q)
+				if x.Body != nil {
+					b.Prints[funcKey(x)] = fingerprint(x)
+				}
 			case *ast.GenDecl:
 				for _, sp := range x.Specs {
 					ts, ok := sp.(*ast.TypeSpec)
@@ -83,6 +87,46 @@ func DumpBaseline(pk *packages.Package) ([]byte, error) {
 		}
 	}
 	return json.MarshalIndent(b, "", " ")
+}
+
+// fingerprint lists the selector names and called identifiers of a body:
+// enough to tell same-shaped functions (sender / receiver) apart after a rename.
+func fingerprint(fd *ast.FuncDecl) []string {
+	set := map[string]bool{}
+	ast.Inspect(fd.Body, func(x ast.Node) bool {
+		switch y := x.(type) {
+		case *ast.SelectorExpr:
+			set[y.Sel.Name] = true
+		case *ast.CallExpr:
+			if id, ok := y.Fun.(*ast.Ident); ok {
+				set[id.Name] = true
+			}
+		}
+		return true
+	})
+	var out []string
+	for k := range set {
+		out = append(out, k)
+	}
+	sort.Strings(out)
+	return out
+}
+
+func jaccard(a, b []string) float64 {
+	if len(a) == 0 && len(b) == 0 {
+		return 1
+	}
+	m := map[string]bool{}
+	for _, x := range a {
+		m[x] = true
+	}
+	inter := 0
+	for _, x := range b {
+		if m[x] {
+			inter++
+		}
+	}
+	return float64(inter) / float64(len(a)+len(b)-inter)
 }
 
 func sigString(f *types.Func, q types.Qualifier) string {
@@ -169,8 +213,15 @@ type fileEdits struct {
 func Normalise(pk *packages.Package, base *Baseline, read func(string) ([]byte, error), round int) (*Result, error) {
 	n := &normaliser{round: round, pk: pk, base: base, read: read, files: map[string]*fileEdits{}, res: &Result{Overlay: map[string][]byte{}}}
 	n.index()
-	// renames first: one kind of rewrite per round keeps offsets simple
+	// one kind of rewrite per round keeps offsets simple: types, then fields and
+	// functions, then method/function conversions, then inlining
+	if n.typeRenames() {
+		return n.finish()
+	}
 	if n.renames() {
+		return n.finish()
+	}
+	if n.conversions() {
 		return n.finish()
 	}
 	n.inlineAll()
